@@ -55,7 +55,7 @@ class FrequencyResponseDomainExpression(FrequencyResponseDomain, Expr):
     def inverse_fourier(self, **assumptions):
         """Attempt inverse Fourier transform."""
 
-        result = self.inverse_fourier_transform(expr.sympy, fsym, tsym)
+        result = inverse_fourier_transform(self.sympy, fsym, tsym)
 
         return self.change(result, 'time', units_scale=uu.Hz, **assumptions)
 
